@@ -34,11 +34,17 @@ def make(cfg):
 
         log["eigh"].clear()
         log["qr"].clear()
-        info = dict(signature=dict(kind="eigenvectors", mode=mode), cfg=cfg)
+        info = dict(signature=dict(kind="eigenvectors", mode=mode, offload=cfg.get("offload", ""), diagonal_input=bool(cfg.get("diagonal_input"))), cfg=cfg)
         A = mf.sym_matrix("a", n)
+        if cfg.get("diagonal_input"):
+            # an exactly diagonal matrix that is NOT flagged as diagonal: still one decomposition (ascending order is eigh's business, not the diagonal's)
+            for i in range(n):
+                for j in range(n):
+                    if i != j:
+                        A[i, j] = SymReal.const(0)
         At = mf.tens(A, torch.float64 if cfg.get("f64") else torch.float32)
         if mode == "eigh":
-            out = M.matrix_eigenvectors(At, None, EighEigenvectorConfig(), is_diagonal=False)
+            out = M.matrix_eigenvectors(At, None, EighEigenvectorConfig(eigen_decomp_offload_device=cfg.get("offload", "")), is_diagonal=False)
             symx.prove("one eigendecomposition of the input", len(log["eigh"]) == 1, info)
             mf.prove_all_equal("decomposed matrix is the input", log["eigh"][0]["A"], A, info)
             mf.prove_all_equal("eigh configuration returns exactly the decomposition's Q", out.a, log["eigh"][0]["Q"], info)
@@ -158,6 +164,9 @@ def jobs_for(tier):
     for n in (2, 3):
         add(n=n, mode="eigh")
         add(n=n, mode="eigh", f64=True)
+        add(n=n, mode="eigh", offload="cpu")
+        add(n=n, mode="eigh", offload="cpu", diagonal_input=True)
+        add(n=n, mode="eigh", diagonal_input=True)
         add(n=n, mode="diag")
         add(n=n, mode="diag", qr=True)
         add(n=n, mode="zero-estimate", max_iterations=2)
@@ -248,7 +257,12 @@ def replay(record):
                 scale = Ad.abs().max().item()
                 if scale == 0 or scale < 1e-30:
                     continue
-                Q = M.matrix_eigenvectors(Ad, torch.zeros(n, n, dtype=dt), QRConfig() if mode == "zero-estimate" else EighEigenvectorConfig())
+                if cfg.get("diagonal_input"):
+                    Ad = torch.diag(torch.sort(torch.diagonal(Ad), descending=True).values)  # exactly diagonal with a descending diagonal
+                    scale = Ad.abs().max().item()
+                    if scale == 0:
+                        continue
+                Q = M.matrix_eigenvectors(Ad, torch.zeros(n, n, dtype=dt), QRConfig() if mode == "zero-estimate" else EighEigenvectorConfig(eigen_decomp_offload_device=cfg.get("offload", "")))
                 D = Q.T @ Ad @ Q
                 tol = 1e-4 if dt is torch.float32 else 1e-9
                 if not torch.allclose(Q.T @ Q, torch.eye(n, dtype=dt), atol=tol):
@@ -272,6 +286,17 @@ def replay(record):
         g = torch.Generator().manual_seed(1)
         E0 = torch.tensor([[val(f"e_{i}_{j}") for j in range(n)] for i in range(n)], dtype=torch.float64)
         cands = [(A, E0 + 1e-3 * torch.eye(n, dtype=torch.float64))]
+        # inputs with exact zero structure: an unflagged diagonal matrix with an unsorted diagonal and the identity (or a permutation) as estimate,
+        # a block-diagonal matrix with the eigenbasis of a differently ordered spectrum as estimate
+        dvals = torch.tensor([4.0, 1.0, 9.0, 2.0][:n], dtype=torch.float64)
+        cands.append((torch.diag(dvals), torch.eye(n, dtype=torch.float64)))
+        cands.append((torch.diag(dvals), torch.eye(n, dtype=torch.float64)[:, torch.arange(n - 1, -1, -1)]))
+        if n >= 3:
+            Bd = torch.zeros(n, n, dtype=torch.float64)
+            Bd[:2, :2] = torch.tensor([[2.0, 1.0], [1.0, 2.0]], dtype=torch.float64)
+            for i in range(2, n):
+                Bd[i, i] = 0.5 * (i - 1)
+            cands.append((Bd, torch.linalg.eigh(Bd)[1][:, torch.arange(n - 1, -1, -1)]))
         for _ in range(60):
             B = torch.randn(n, n, dtype=torch.float64, generator=g)
             cands.append((B @ B.T, torch.randn(n, n, dtype=torch.float64, generator=g)))
@@ -286,8 +311,11 @@ def replay(record):
             P = E
             for _ in range(it):
                 P, _ = torch.linalg.qr(Ac @ P)
-            if not torch.allclose((P @ P.T), (Q @ Q.T), atol=1e-6):
-                probs.append("result does not span the orthogonal-iteration update")
+            # the result is the last iterate of the documented orthogonal iteration up to column order and signs: |P^T Q| is a permutation matrix
+            W = (P.T @ Q).abs()
+            if not (torch.allclose(W.max(dim=0).values, torch.ones(n, dtype=torch.float64), atol=1e-6) and torch.allclose(W.sum(dim=0), torch.ones(n, dtype=torch.float64), atol=1e-5)
+                    and torch.allclose(W.sum(dim=1), torch.ones(n, dtype=torch.float64), atol=1e-5)):
+                probs.append(f"result is not the {it}-step orthogonal-iteration update of the estimate (up to column order and signs) for A={Ac.tolist()} estimate={E.tolist()}")
             if probs:
                 break
     return bool(probs), f"mode={mode} n={n}: {probs or 'clauses hold'}"
